@@ -11,7 +11,7 @@ use arrow_flight::encode::{DictionaryHandling, FlightDataEncoderBuilder};
 use arrow_flight::error::FlightError;
 use arrow_flight::FlightData;
 use arrow_schema::*;
-use futures::{StreamExt, TryStreamExt};
+use futures::TryStreamExt;
 use std::sync::Arc;
 use vcommon::*;
 
@@ -63,7 +63,8 @@ fn gen_col(rng: &mut Rng, dt: &DataType, n: usize) -> ArrayRef {
             for _ in 0..n {
                 offs.push(offs.last().unwrap() + rng.usize(4) as i32);
             }
-            let child = gen_col(rng, f.data_type(), *offs.last().unwrap() as usize + rng.usize(2));
+            let extra = rng.usize(2);
+            let child = gen_col(rng, f.data_type(), *offs.last().unwrap() as usize + extra);
             Arc::new(ListArray::try_new(f.clone(), OffsetBuffer::new(offs.into()), child, gen_nulls(rng, n)).unwrap())
         }
         DataType::Struct(fs) => {
